@@ -698,6 +698,7 @@ def scan() -> List[M]:
         M("C09", "scan4-dt-read-unsigned-int-swapped", DT, "read_unsigned_int(response, 0)", "read_unsigned_int(0, response)", "C09.R1"),
         M("C19", "scan4-ecomodev1-decoder-refuses-minus-100", S, "        if self.power < -100 or self.power > 100:", "        if self.power < -99 or self.power > 100:", "C19.R4"),
         M("C19", "scan4-benign-ecomodev1-decoder-wider", S, "        if self.power < -100 or self.power > 100:", "        if self.power < -101 or self.power > 100:", "clean"),
+        M("C09", "scan4-failure-message-str-minus-str", P, "                \"No valid response received to '\" + self.request.hex() + \"' request.\"", "                \"No valid response received to '\" + self.request.hex() - \"' request.\"", "C09.R1"),
         M("C16", "scan-dt-id-map-never-built", DT, "        self._sensors_map = {s.id_: s for s in self.sensors()}\n        return self._sensors_map.get(sensor_id)", "        return self._sensors_map.get(sensor_id)", "C16.R5"),
     ]
 
